@@ -209,6 +209,11 @@ def law_tmrange(lines, exp):
                 except Exception: pass
             yield (k, line, e + (' (' + first + ')' if first else ''), 'viol 0: every date / millisecond / combination of the range encodes exactly and decodes to its components')
 
+def law_nd(lines, exp):
+    for k, (line, e) in enumerate(zip(lines, exp)):
+        if e.strip() != 'member':
+            yield (k, line, e, 'member: every answer of random / choice is one the relational specification allows')
+
 def law_scanrange(lines, exp):
     for k, (line, e) in enumerate(zip(lines, exp)):
         if not e.startswith('viol 0 '):
@@ -241,5 +246,5 @@ def law_script_c11(lines, exp):
         # no variable/call in result position can be told from the protocol line only for plain operator roots; the chkbool stream has the precise proviso
     return []
 
-LAWS = {'scanrange': law_scanrange, 'script_c05': law_script_c05, 'script_c10': law_script_c10, 'tmrange': law_tmrange, 'c10_dcall': law_c10_dcall, 'stable': law_stable, 'json_same': law_json_same, 'c05': law_c05, 'c06': law_c06, 'c10': law_c10, 'c10_opt': law_c10_opt, 'c11': law_c11,
+LAWS = {'nd': law_nd, 'scanrange': law_scanrange, 'script_c05': law_script_c05, 'script_c10': law_script_c10, 'tmrange': law_tmrange, 'c10_dcall': law_c10_dcall, 'stable': law_stable, 'json_same': law_json_same, 'c05': law_c05, 'c06': law_c06, 'c10': law_c10, 'c10_opt': law_c10_opt, 'c11': law_c11,
         'same': law_expect('same'), 'ok': law_ok, 'no_crash': law_no_crash}
